@@ -35,17 +35,15 @@ type StarvingMutex struct {
 
 // NewStarvingMutex creates a new StarvingMutex.
 func NewStarvingMutex() *StarvingMutex {
-	fm := &StarvingMutex{}
-	fm.readerCond.L = &fm.mutex
-	fm.writerCond.L = &fm.mutex
-
-	return fm
+	// the conditions get their locker on first use (see initConds): a StarvingMutex may be copied before its first use,
+	// and a copy must not refer to the mutex of the original
+	return &StarvingMutex{}
 }
 
-// initConds makes the zero value usable: the conditions of a StarvingMutex that was not created with NewStarvingMutex
-// get their locker the first time somebody could have to wait (the caller holds f.mutex).
+// initConds makes the zero value (and a copy made before the first use) usable: the conditions get their locker, the
+// mutex of this very StarvingMutex, the first time somebody could have to wait (the caller holds f.mutex).
 func (f *StarvingMutex) initConds() {
-	if f.readerCond.L == nil {
+	if f.readerCond.L != sync.Locker(&f.mutex) {
 		f.readerCond.L = &f.mutex
 		f.writerCond.L = &f.mutex
 	}
